@@ -315,17 +315,21 @@ func runC16(c *Ctx) {
 			}
 			k := "init-failure " + m.fnName(probe)
 			start := gp.Succ[f.Edge.From][f.Edge.K]
-			hdr, _ := loopOf(gp.Ins[f.Edge.From].Block())
+			// (the test may sit in a helper spliced into the loop body)
+			var hdr *ssa.BasicBlock
+			if hs := gp.loopsAround(f.Edge.From); len(hs) > 0 {
+				hdr = hs[0]
+			}
 			if hdr == nil {
 				c.fail("C16.R2", k, "the DriverInit error test is not inside the probe loop", gp.posOf(f.Edge.From))
 				continue
 			}
-			h := gp.First[hdr]
+			atHdr := func(n int) bool { return gp.Ins[n] != nil && gp.Ins[n].Block() == hdr }
 			isRet := func(n int) bool { _, ok := gp.Ins[n].(*ssa.Return); return ok }
 			isLog := func(n int) bool { return m.callsTo(gp.Ins[n], fprintf) }
-			if p := gp.Path([]int{start}, nil, func(n int) bool { return n == h }, isRet); p != nil {
+			if p := gp.Path([]int{start}, nil, atHdr, isRet); p != nil {
 				c.fail("C16.R2", k, "probing stops (return) after a driver fails to initialise", gp.where(p, 8)...)
-			} else if p := gp.Path([]int{start}, nil, isLog, func(n int) bool { return n == h }); p != nil {
+			} else if p := gp.Path([]int{start}, nil, isLog, atHdr); p != nil {
 				c.fail("C16.R2", k, "a failed initialisation is not reported on the log before the loop continues", gp.where(p, 8)...)
 			} else {
 				c.ok("C16.R2", k, "the failure side writes to the log and reaches only the loop header", gp.posOf(f.Edge.From))
